@@ -28,6 +28,7 @@ import (
 	"testing"
 	"time"
 
+	"github.com/openGemini/openGemini/engine/index/mergeindex"
 	"github.com/openGemini/openGemini/lib/config"
 	"github.com/openGemini/openGemini/lib/index"
 	"github.com/openGemini/openGemini/lib/logger"
@@ -49,7 +50,10 @@ type c10Key struct {
 	Tags []c10Tag
 }
 
-var c10Msts = []string{"m_0000", "mm_0000"}
+var c10Msts = []string{"m_0000", "mm_0000", c10WideMst}
+
+// c10Mask is a set of series keys (bit k = c10Keys[k]).
+type c10Mask = uint64
 
 const c10Special = "a b,c=d\x00\x01\x02"
 
@@ -66,13 +70,18 @@ var c10Keys = []c10Key{
 	{0, []c10Tag{{"host", c10Special}, {"region", "b=,a"}}},
 	{1, []c10Tag{{"host", "a"}, {"region", "a"}}},
 	{1, nil},
+	// + the 27 wide-row keys of measurement 2, appended by c10InitKeys (see c10_wide_test.go)
 }
 
-const c10NK = 8
+const (
+	c10NHK = 8                // keys of the history exploration and of the 5 original scenarios
+	c10NK  = c10NHK + c10NWide // all keys
+)
 
-var c10MstMask [2]uint16
+var c10MstMask [3]c10Mask
 var c10IndexKeys [c10NK][]byte
 var c10Render [c10NK]string
+var c10KeyOfRender = map[string]int{}
 
 func (k c10Key) tag(key string) string {
 	for _, t := range k.Tags {
@@ -108,12 +117,17 @@ func (k c10Key) render() string {
 }
 
 func c10InitKeys() {
+	c10Keys = append(c10Keys[:c10NHK:c10NHK], c10WideKeys()...)
+	if len(c10Keys) != c10NK {
+		panic("c10: key count")
+	}
 	seen := map[string]bool{}
 	for i, k := range c10Keys {
 		c10MstMask[k.Mst] |= 1 << uint(i)
 		r := k.row()
 		c10IndexKeys[i] = append([]byte(nil), r.IndexKey...)
 		c10Render[i] = k.render()
+		c10KeyOfRender[c10Render[i]] = i
 		if seen[c10Render[i]] {
 			panic("c10: rendered keys collide")
 		}
@@ -121,7 +135,7 @@ func c10InitKeys() {
 	}
 }
 
-func c10MaskString(m uint16) string {
+func c10MaskString(m c10Mask) string {
 	var s []string
 	for i := 0; i < c10NK; i++ {
 		if m&(1<<uint(i)) != 0 {
@@ -230,13 +244,14 @@ type c10Atom struct {
 	// NilNeg: `key !~ /re/` with a regex that matches the empty string.  The index answers such an atom with a
 	// nil id set, which the show path's AND treats as "no constraint" (known defect, see c10KindNilNeg).
 	NilNeg bool
-	True   uint16 // keys (all measurements) whose tags satisfy the atom
+	True   c10Mask // keys (all measurements) whose tags satisfy the atom
 	ident  string
 }
 
 var c10AtomList []c10Atom
 var c10AtomByIdent = map[string]int{}
 var c10NCoreAtoms int
+var c10NBaseAtoms int // core + extension atoms; the atoms after these are used on the wide-row states only
 
 func c10RegexClass(src string) int {
 	re, err := syntax.Parse(src, syntax.Perl)
@@ -322,6 +337,13 @@ func c10InitAtoms() {
 	add("hosts", "=", "b", false, "hosts = 'b'")
 	add("zone", "!=", "a", false, "zone != 'a'")
 	add("region", "=~", "é", true, "region =~ /é/")
+	c10NBaseAtoms = len(c10AtomList)
+	// wide-row states only: a fully anchored regex with a literal prefix and a non-literal rest (class exact: no known
+	// defect applies).  The row scan then runs with a seek prefix that holds a part of the value, and the shared value
+	// "a" is a non-matching wide row with that prefix ("ab" matches and sorts after it).
+	add("host", "=~", "^a.+$", true, "host =~ /^a.+$/")
+	add("host", "!~", "^a.+$", true, "host !~ /^a.+$/")
+	add("region", "=~", "^a.+$", true, "region =~ /^a.+$/")
 }
 
 type c10Tree struct {
@@ -384,7 +406,7 @@ func c10AtomOf(b *influxql.BinaryExpr) int {
 }
 
 // c10Eval evaluates the raw tree over key masks; leaf gives the mask of the n-th leaf (atom index a).
-func c10Eval(e influxql.Expr, n *int, leaf func(n, a int) uint16) uint16 {
+func c10Eval(e influxql.Expr, n *int, leaf func(n, a int) c10Mask) c10Mask {
 	switch x := e.(type) {
 	case *influxql.ParenExpr:
 		return c10Eval(x.Expr, n, leaf)
@@ -411,7 +433,7 @@ func c10Eval(e influxql.Expr, n *int, leaf func(n, a int) uint16) uint16 {
 func c10Leaves(e influxql.Expr) []int {
 	var out []int
 	n := 0
-	c10Eval(e, &n, func(_ int, a int) uint16 { out = append(out, a); return 0 })
+	c10Eval(e, &n, func(_ int, a int) c10Mask { out = append(out, a); return 0 })
 	return out
 }
 
@@ -421,16 +443,31 @@ func c10Leaves(e influxql.Expr) []int {
 type c10State struct {
 	x        *c10Index
 	ids      [c10NK]uint64
-	inserted uint16
-	pending  uint16 // inserted, not yet flushed by an explored operation
-	uncached uint16 // pending and the caches were dropped since the insert
-	visible  uint16 // what the index lists (flushed <= visible <= inserted), refreshed by listing()
+	inserted c10Mask
+	pending  c10Mask // inserted, not yet flushed by an explored operation
+	uncached c10Mask // pending and the caches were dropped since the insert
+	visible  c10Mask // what the index lists (flushed <= visible <= inserted), refreshed by listing()
 	label    string
 	replay   func(tree string) any
 	// observed one-atom results per path (for the known-defect classification of bigger trees)
-	atomObs   [c10NPaths][]uint16
+	atomObs   [c10NPaths][]c10Mask
 	atomObsOK bool
 	kinds     []string // kinds of the violations reported on this state, in order
+	// universe of this state: the keys the id oracle looks up, the measurements listed, the measurements the
+	// predicate sweeps run on; rowLimit != 0: the value of mergeindex.MaxTSIDsPerRow this state is built and searched with
+	univ      c10Mask
+	listMsts  []int
+	sweepMsts []int
+	rowLimit  int
+	wideTag   string // "" for the original states, layout+limit for the wide-row states (part of the non-triviality hash)
+}
+
+const c10HistUniv = c10Mask(1)<<c10NHK - 1
+
+var c10HistMsts = []int{0, 1}
+
+func c10NewState(x *c10Index) *c10State {
+	return &c10State{x: x, univ: c10HistUniv, listMsts: c10HistMsts, sweepMsts: c10HistMsts}
 }
 
 type c10Case struct {
@@ -438,6 +475,7 @@ type c10Case struct {
 	Ops      []string `json:"ops,omitempty"`
 	Scenario string   `json:"scenario,omitempty"`
 	Tree     string   `json:"tree,omitempty"`
+	Versus   string   `json:"versus,omitempty"` // row-limit differential: the scenario with the reference answer
 }
 
 func (st *c10State) idToKey(id uint64) int {
@@ -449,8 +487,8 @@ func (st *c10State) idToKey(id uint64) int {
 	return -1
 }
 
-func (st *c10State) maskOfIDs(ids []uint64) (uint16, error) {
-	var m uint16
+func (st *c10State) maskOfIDs(ids []uint64) (c10Mask, error) {
+	var m c10Mask
 	seen := map[uint64]bool{}
 	for _, id := range ids {
 		if seen[id] {
@@ -466,16 +504,11 @@ func (st *c10State) maskOfIDs(ids []uint64) (uint16, error) {
 	return m, nil
 }
 
-func (st *c10State) maskOfTexts(keys [][]byte) (uint16, error) {
-	var m uint16
+func (st *c10State) maskOfTexts(keys [][]byte) (c10Mask, error) {
+	var m c10Mask
 	for _, b := range keys {
-		k := -1
-		for i := 0; i < c10NK; i++ {
-			if c10Render[i] == string(b) {
-				k = i
-			}
-		}
-		if k < 0 {
+		k, known := c10KeyOfRender[string(b)]
+		if !known {
 			return 0, fmt.Errorf("unknown series key %q returned", b)
 		}
 		if m&(1<<uint(k)) != 0 {
@@ -494,10 +527,14 @@ func (st *c10State) violation(rep *kit.Report, kind, what, detail, tree string) 
 // idOracle: id(k) defined <=> inserted, unchanged since first assignment (a pending series whose
 // cache entry was dropped may be reported as not found: visibility, DESIGN §3a).
 func (st *c10State) idOracle(rep *kit.Report) {
+	defer st.enter()()
 	for k := 0; k < c10NK; k++ {
+		if st.univ&(1<<uint(k)) == 0 {
+			continue
+		}
 		rep.Eval(1)
 		id, err := st.x.idx.GetSeriesIdBySeriesKey(c10IndexKeys[k])
-		bit := uint16(1) << uint(k)
+		bit := c10Mask(1) << uint(k)
 		switch {
 		case err != nil:
 			st.violation(rep, "id_lookup_error", fmt.Sprintf("lookup k%d", k), err.Error(), "")
@@ -518,9 +555,11 @@ func (st *c10State) idOracle(rep *kit.Report) {
 
 // listing: unconditional listings per measurement; establishes the visible set.
 func (st *c10State) listing(rep *kit.Report) bool {
+	defer st.enter()()
 	ok := true
 	st.visible = 0
-	for m, name := range c10Msts {
+	for _, m := range st.listMsts {
+		name := c10Msts[m]
 		rep.Eval(1)
 		ids, err := st.x.idx.SearchSeriesByTableAndCond([]byte(name), nil, DefaultTR)
 		if err != nil {
@@ -612,7 +651,7 @@ func (st *c10State) listing(rep *kit.Report) bool {
 	return ok
 }
 
-func c10Pop(m uint16) int {
+func c10Pop(m c10Mask) int {
 	n := 0
 	for ; m != 0; m &= m - 1 {
 		n++
@@ -620,7 +659,7 @@ func c10Pop(m uint16) int {
 	return n
 }
 
-func c10TagValues(mask uint16, key string) []string {
+func c10TagValues(mask c10Mask, key string) []string {
 	set := map[string]bool{}
 	for k := 0; k < c10NK; k++ {
 		if mask&(1<<uint(k)) == 0 {
@@ -655,7 +694,7 @@ var c10KindOfClass = map[int]string{
 // by the known per-atom regex defects: every affected leaf may take either its true mask or the mask
 // the index returned for that atom alone on the same state and path; every other leaf and every
 // AND/OR/parenthesis must be exact.  Returns the known kind or "".
-func (st *c10State) classify(t *c10Tree, path int, scope uint16, single int, matches func(hyp uint16) bool) string {
+func (st *c10State) classify(t *c10Tree, path int, scope c10Mask, single int, matches func(hyp c10Mask) bool) string {
 	if single >= 0 {
 		// a one-atom tree: the atom itself is the unit of the known defects
 		cls := c10AtomList[single].Class
@@ -700,20 +739,23 @@ func (st *c10State) classify(t *c10Tree, path int, scope uint16, single int, mat
 			continue
 		}
 		n := 0
-		hyp := c10Eval(t.expr[c10PathRaw], &n, func(n, a int) uint16 {
+		hyp := c10Eval(t.expr[c10PathRaw], &n, func(n, a int) c10Mask {
 			switch use[n] {
 			case 1:
 				return st.atomObs[path][a]
 			case 2:
-				return 0xffff
+				return ^c10Mask(0)
 			}
 			return c10AtomList[a].True
 		}) & scope
 		if !matches(hyp) {
 			continue
 		}
-		// prefer the explanation with the fewest substituted leaves; among those, one that needs no
-		// "nil set = no constraint" substitution; among those, the lowest defect class
+		// prefer an explanation that needs no "nil set = no constraint" substitution (the other substitutions are
+		// answers the index was SEEN to give for the atom alone on this very state; the nil-set one is a hypothesis
+		// about AND, and entry points that are compared by count or by tag values only admit coincidences: a
+		// cardinality explained by two observed regex answers was once attributed to one nil-set substitution);
+		// among those the fewest substituted leaves; among those the lowest defect class
 		cls := 99
 		nilneg := 0
 		for n, how := range use {
@@ -723,7 +765,7 @@ func (st *c10State) classify(t *c10Tree, path int, scope uint16, single int, mat
 				cls = c
 			}
 		}
-		score := c10Pop(uint16(combo))*100 + nilneg*10 + cls%10
+		score := nilneg*10000 + c10Pop(c10Mask(combo))*100 + cls%10
 		if score < bestN {
 			bestN = score
 			if nilneg == 1 {
@@ -736,7 +778,7 @@ func (st *c10State) classify(t *c10Tree, path int, scope uint16, single int, mat
 	return best
 }
 
-func (st *c10State) report(rep *kit.Report, t *c10Tree, path int, api, name string, scope, want uint16, got string, gotMask uint16, hasMask bool, single int, matches func(uint16) bool) {
+func (st *c10State) report(rep *kit.Report, t *c10Tree, path int, api, name string, scope, want c10Mask, got string, gotMask c10Mask, hasMask bool, single int, matches func(c10Mask) bool) {
 	kind := st.classify(t, path, scope, single, matches)
 	if kind == "" {
 		kind = "predicate_mismatch"
@@ -751,15 +793,21 @@ func (st *c10State) report(rep *kit.Report, t *c10Tree, path int, api, name stri
 // checkTree runs one tree through every search entry point on both measurements.
 // full=false skips the text/cardinality variants (used for the 3-atom sweep).
 func (st *c10State) checkTree(rep *kit.Report, t *c10Tree, full bool, single int) {
-	leafTrue := func(_ int, a int) uint16 { return c10AtomList[a].True }
-	for m, name := range c10Msts {
+	defer st.enter()()
+	leafTrue := func(_ int, a int) c10Mask { return c10AtomList[a].True }
+	for _, m := range st.sweepMsts {
+		name := c10Msts[m]
 		scope := st.visible & c10MstMask[m]
 		n := 0
 		want := c10Eval(t.expr[c10PathRaw], &n, leafTrue) & scope
 		bname := []byte(name)
 		rep.Eval(1)
 		if scope != 0 && want != 0 && want != scope {
-			if rep.DistinctNontrivial(kit.Hash("P", fmt.Sprint(scope), t.Text)) && single < 0 {
+			h := kit.Hash("P", fmt.Sprint(scope), t.Text)
+			if st.wideTag != "" {
+				h = kit.Hash("PW", st.wideTag, fmt.Sprint(scope), t.Text)
+			}
+			if rep.DistinctNontrivial(h) && single < 0 {
 				rep.Sample(3, map[string]string{"state": st.label, "measurement": name, "predicate": t.Text,
 					"visible": c10MaskString(scope), "expected": c10MaskString(want)})
 			}
@@ -775,7 +823,7 @@ func (st *c10State) checkTree(rep *kit.Report, t *c10Tree, full bool, single int
 			st.violation(rep, "search_error", "SearchSeriesByTableAndCond|"+name+"|"+t.Text, fmt.Sprintf("%v %v", err, merr), t.Text)
 		} else if got != want {
 			g := got
-			st.report(rep, t, c10PathRaw, "SearchSeriesByTableAndCond", name, scope, want, c10MaskString(got), got, true, single, func(h uint16) bool { return h == g })
+			st.report(rep, t, c10PathRaw, "SearchSeriesByTableAndCond", name, scope, want, c10MaskString(got), got, true, single, func(h c10Mask) bool { return h == g })
 		}
 
 		// (2) select path, ids (tag-filter cache, all-AND fast path)
@@ -792,7 +840,7 @@ func (st *c10State) checkTree(rep *kit.Report, t *c10Tree, full bool, single int
 			st.violation(rep, "search_error", "SearchSeriesIterator|"+name+"|"+t.Text, fmt.Sprintf("%v %v", err, merr), t.Text)
 		} else if sgot != want {
 			g := sgot
-			st.report(rep, t, c10PathSel, "SearchSeriesIterator", name, scope, want, c10MaskString(sgot), sgot, true, single, func(h uint16) bool { return h == g })
+			st.report(rep, t, c10PathSel, "SearchSeriesIterator", name, scope, want, c10MaskString(sgot), sgot, true, single, func(h c10Mask) bool { return h == g })
 		}
 
 		// (3) show tag values with the condition
@@ -810,7 +858,7 @@ func (st *c10State) checkTree(rep *kit.Report, t *c10Tree, full bool, single int
 				if gs != strings.Join(c10TagValues(want, tk), "\x1f") {
 					key := tk
 					st.report(rep, t, c10PathRaw, "SearchTagValues("+tk+")", name, scope, want, fmt.Sprintf("%q, want values %q", gotv, c10TagValues(want, tk)), 0, false, single,
-						func(h uint16) bool { return strings.Join(c10TagValues(h, key), "\x1f") == gs })
+						func(h c10Mask) bool { return strings.Join(c10TagValues(h, key), "\x1f") == gs })
 				}
 			}
 		}
@@ -828,14 +876,14 @@ func (st *c10State) checkTree(rep *kit.Report, t *c10Tree, full bool, single int
 			st.violation(rep, "search_error", "SearchSeriesKeys|"+name+"|"+t.Text, fmt.Sprintf("%v %v", err, merr), t.Text)
 		} else if kgot != want {
 			g := kgot
-			st.report(rep, t, c10PathRaw, "SearchSeriesKeys", name, scope, want, c10MaskString(kgot), kgot, true, single, func(h uint16) bool { return h == g })
+			st.report(rep, t, c10PathRaw, "SearchSeriesKeys", name, scope, want, c10MaskString(kgot), kgot, true, single, func(h c10Mask) bool { return h == g })
 		}
 		c, err := st.x.idx.SeriesCardinality(bname, t.expr[c10PathRaw], DefaultTR)
 		if err != nil {
 			st.violation(rep, "search_error", "SeriesCardinality|"+name+"|"+t.Text, err.Error(), t.Text)
 		} else if int(c) != c10Pop(want) {
 			cc := int(c)
-			st.report(rep, t, c10PathRaw, "SeriesCardinality", name, scope, want, fmt.Sprint(c), 0, false, single, func(h uint16) bool { return c10Pop(h) == cc })
+			st.report(rep, t, c10PathRaw, "SeriesCardinality", name, scope, want, fmt.Sprint(c), 0, false, single, func(h c10Mask) bool { return c10Pop(h) == cc })
 		}
 	}
 }
@@ -845,7 +893,7 @@ var c10AtomTrees []*c10Tree
 // atomSweep checks every one-atom predicate and records what the index answers for each atom.
 func (st *c10State) atomSweep(rep *kit.Report, natoms int) {
 	for p := 0; p < c10NPaths; p++ {
-		st.atomObs[p] = make([]uint16, len(c10AtomList))
+		st.atomObs[p] = make([]c10Mask, len(c10AtomList))
 	}
 	st.atomObsOK = false
 	for a := 0; a < natoms; a++ {
@@ -909,7 +957,7 @@ func c10OpNames(seq []int) []string {
 
 // model state used by the enumerator (no index needed)
 type c10Model struct {
-	inserted, pending, uncached uint16
+	inserted, pending, uncached c10Mask
 	last                        int // last op, -1 at start
 }
 
@@ -918,7 +966,7 @@ func (m c10Model) apply(op int) c10Model {
 	n.last = op
 	switch {
 	case op < c10NK:
-		b := uint16(1) << uint(op)
+		b := c10Mask(1) << uint(op)
 		if m.inserted&b == 0 {
 			n.inserted |= b
 			n.pending |= b
@@ -935,7 +983,7 @@ func (m c10Model) apply(op int) c10Model {
 func (m c10Model) noop(op int) bool {
 	switch {
 	case op < c10NK:
-		b := uint16(1) << uint(op)
+		b := c10Mask(1) << uint(op)
 		// re-insert of a series the lookup finds (flushed, or still cached): same lookup the id oracle
 		// just did, nothing is written
 		return m.inserted&b != 0 && m.uncached&b == 0
@@ -1001,7 +1049,7 @@ func (r *c10Runner) runHistory(seq []int, sweepEvery bool, tree string) (int64, 
 	}
 	defer os.RemoveAll(dir)
 	seqv := uint64(c10SeqSeed)
-	st := &c10State{x: c10Open(dir, 1, &seqv)}
+	st := c10NewState(c10Open(dir, 1, &seqv))
 	closed := false
 	defer func() {
 		if !closed {
@@ -1022,7 +1070,7 @@ func (r *c10Runner) runHistory(seq []int, sweepEvery bool, tree string) (int64, 
 			switch {
 			case op < c10NK:
 				sawInsert = true
-				bit := uint16(1) << uint(op)
+				bit := c10Mask(1) << uint(op)
 				id, err := st.x.insert(op, false)
 				rep.Eval(1)
 				if err != nil || id == 0 {
@@ -1089,7 +1137,7 @@ func (r *c10Runner) runHistory(seq []int, sweepEvery bool, tree string) (int64, 
 			}
 			if sweepEvery || step == len(seq)-1 {
 				if tree == "" {
-					st.atomSweep(rep, len(c10AtomList))
+					st.atomSweep(rep, c10NBaseAtoms)
 				} else if step == len(seq)-1 {
 					// replay of one predicate: the per-atom observations are needed for the classification only
 					st.atomSweep(kit.NewReport("C10-replay-scratch"), len(c10AtomList))
@@ -1118,17 +1166,25 @@ func (r *c10Runner) runHistory(seq []int, sweepEvery bool, tree string) (int64, 
 type c10Scenario struct {
 	Name string
 	Ops  []string
+	// wide-row scenarios (c10_wide_test.go): measurement 2 with shared tag values, built and searched with
+	// mergeindex.MaxTSIDsPerRow = Limit; Layout names the op list (states of one layout differ in the limit only)
+	Wide   bool
+	Layout string
+	Limit  int
+	Deep   bool // takes part in the three-atom sweep of the thorough tier
 }
 
 var c10Scenarios = []c10Scenario{
-	{"all_flushed", []string{"ins0", "ins1", "ins2", "ins3", "ins4", "ins5", "ins6", "ins7", "flush"}},
-	{"all_restarted", []string{"ins0", "ins1", "ins2", "ins3", "ins4", "ins5", "ins6", "ins7", "restart"}},
-	{"half_unflushed", []string{"ins0", "ins3", "ins5", "ins6", "flush", "ins1", "ins2", "ins4", "ins7"}},
-	{"part_per_series_cold", []string{"ins7", "flush", "ins5", "flush", "ins3", "flush", "ins1", "flush", "ins6", "flush", "ins4", "flush", "ins2", "flush", "ins0", "flush", "clear"}},
-	{"two_parts_reopened", []string{"ins1", "ins2", "ins6", "flush", "reopen", "ins0", "ins4", "ins3", "flush"}},
+	{Name: "all_flushed", Ops: []string{"ins0", "ins1", "ins2", "ins3", "ins4", "ins5", "ins6", "ins7", "flush"}},
+	{Name: "all_restarted", Ops: []string{"ins0", "ins1", "ins2", "ins3", "ins4", "ins5", "ins6", "ins7", "restart"}},
+	{Name: "half_unflushed", Ops: []string{"ins0", "ins3", "ins5", "ins6", "flush", "ins1", "ins2", "ins4", "ins7"}},
+	{Name: "part_per_series_cold", Ops: []string{"ins7", "flush", "ins5", "flush", "ins3", "flush", "ins1", "flush", "ins6", "flush", "ins4", "flush", "ins2", "flush", "ins0", "flush", "clear"}},
+	{Name: "two_parts_reopened", Ops: []string{"ins1", "ins2", "ins6", "flush", "reopen", "ins0", "ins4", "ins3", "flush"}},
 }
 
-func (r *c10Runner) buildScenario(sc c10Scenario) *c10State {
+// buildScenario builds one fixed state.  With rep != nil a wide-row scenario runs the id and listing oracle after
+// every flush/clear/restart/reopen of its op list (ids distinct and stable while rows are merged and split).
+func (r *c10Runner) buildScenario(sc c10Scenario, rep *kit.Report) *c10State {
 	dir := filepath.Join(r.root, "sc_"+sc.Name)
 	_ = os.RemoveAll(dir)
 	if err := os.MkdirAll(dir, 0o755); err != nil {
@@ -1136,16 +1192,34 @@ func (r *c10Runner) buildScenario(sc c10Scenario) *c10State {
 	}
 	seqv := new(uint64)
 	*seqv = c10SeqSeed
-	st := &c10State{x: c10Open(dir, 1, seqv), label: "scenario " + sc.Name}
+	st := c10NewState(nil)
+	st.label = "scenario " + sc.Name
+	if sc.Wide {
+		st.univ, st.listMsts, st.sweepMsts = c10WideUniv, c10WideListMsts, c10WideSweepMsts
+		st.rowLimit, st.wideTag = sc.Limit, fmt.Sprintf("%s/%d", sc.Layout, sc.Limit)
+	}
+	defer st.enter()()
+	st.x = c10Open(dir, 1, seqv)
 	name := sc.Name
 	st.replay = func(tree string) any { return c10Case{Kind: "scenario", Scenario: name, Tree: tree} }
 	for i, o := range sc.Ops {
 		op := c10OpByName(o)
+		if op < c10NK && st.univ&(1<<uint(op)) == 0 {
+			panic("c10: scenario " + sc.Name + " inserts a key outside its universe: " + o)
+		}
 		switch {
 		case op < c10NK:
 			id, err := st.x.insert(op, i%2 == 1) // alternate the two insert entry points
 			if err != nil || id == 0 {
 				panic(fmt.Sprintf("c10: scenario insert failed: %v", err))
+			}
+			for k := 0; k < c10NK; k++ {
+				if st.ids[k] == id {
+					if rep == nil {
+						panic(fmt.Sprintf("c10: scenario %s: %s got the id of k%d", sc.Name, o, k))
+					}
+					st.violation(rep, "id_shared", o, fmt.Sprintf("new series %q got id %x which already belongs to %q", c10Render[op], id, c10Render[k]), "")
+				}
 			}
 			st.ids[op] = id
 			st.inserted |= 1 << uint(op)
@@ -1165,6 +1239,15 @@ func (r *c10Runner) buildScenario(sc c10Scenario) *c10State {
 			st.x.open()
 			st.pending = 0
 		}
+		if sc.Wide && rep != nil && op >= c10NK && i < len(sc.Ops)-1 {
+			// intermediate state of a wide-row scenario (the final state is checked by the caller)
+			st.label = fmt.Sprintf("scenario %s after step %d (%s)", sc.Name, i+1, o)
+			st.guard(rep, "scenario oracle", func() {
+				st.idOracle(rep)
+				st.listing(rep)
+			})
+			st.label = "scenario " + sc.Name
+		}
 	}
 	return st
 }
@@ -1173,8 +1256,8 @@ var c10Connectives = []string{"AND", "OR"}
 
 // c10TwoAtomTexts: a o b, and the parenthesised spellings for a subset (parser/ParenExpr handling).
 func c10TwoAtomTexts(f func(text string)) {
-	for i := range c10AtomList {
-		for j := range c10AtomList {
+	for i := range c10AtomList[:c10NBaseAtoms] {
+		for j := range c10AtomList[:c10NBaseAtoms] {
 			for _, o := range c10Connectives {
 				a, b := c10AtomList[i].Text, c10AtomList[j].Text
 				f(a + " " + o + " " + b)
@@ -1259,20 +1342,30 @@ func TestVerifC10(t *testing.T) {
 			}
 			r.runHistory(seq, false, c.Tree)
 		case "scenario":
-			for _, sc := range c10Scenarios {
-				if sc.Name != c.Scenario {
-					continue
+			var sts []*c10State
+			var scs []c10Scenario
+			for _, want := range []string{c.Versus, c.Scenario} {
+				for _, sc := range c10AllScenarios(true) {
+					if sc.Name != want {
+						continue
+					}
+					st := r.buildScenario(sc, rep)
+					st.idOracle(rep)
+					st.listing(rep)
+					if c.Tree == "" {
+						st.atomSweep(rep, st.natoms())
+					} else {
+						st.atomSweep(kit.NewReport("C10-replay-scratch"), len(c10AtomList))
+						st.checkTree(rep, c10NewTree(c.Tree), true, -1)
+					}
+					sts, scs = append(sts, st), append(scs, sc)
 				}
-				st := r.buildScenario(sc)
-				st.idOracle(rep)
-				st.listing(rep)
-				if c.Tree == "" {
-					st.atomSweep(rep, len(c10AtomList))
-				} else {
-					st.atomSweep(kit.NewReport("C10-replay-scratch"), len(c10AtomList))
-					st.checkTree(rep, c10NewTree(c.Tree), true, -1)
-				}
-				st.x.close()
+			}
+			if c.Versus != "" {
+				c10RowLimitDifferential(rep, sts, scs)
+			}
+			for _, st := range sts {
+				st.close()
 			}
 		default:
 			t.Fatalf("unknown replay kind %q", c.Kind)
@@ -1282,6 +1375,7 @@ func TestVerifC10(t *testing.T) {
 
 	if kit.Shard() == 0 {
 		c10WritePathNote(rep)
+		c10WideNote(rep)
 	}
 	phase := os.Getenv("VERIF_C10_PHASE") // debugging aid: "hist" or "pred" runs one part only
 	if phase != "hist" {
@@ -1296,16 +1390,27 @@ func TestVerifC10(t *testing.T) {
 // worker builds its own copy of every scenario).
 func c10RunPredicates(r *c10Runner, rep *kit.Report, thorough bool) {
 	var states []*c10State
-	for _, sc := range c10Scenarios {
-		st := r.buildScenario(sc)
+	var scs []c10Scenario
+	nwide := int64(0)
+	for _, sc := range c10AllScenarios(thorough) {
+		if sc.Wide && sc.Limit != mergeindex.MaxTSIDsPerRow && !mergeindex.VerifMaxTSIDsPerRowSettable {
+			rep.Max("max_row_limit_not_settable", 1) // c10.py did not find the constant: these states would equal the limit-64 ones
+			continue
+		}
+		st := r.buildScenario(sc, rep)
 		st.guard(rep, "scenario oracle", func() {
 			st.idOracle(rep)
 			st.listing(rep)
-			st.atomSweep(rep, len(c10AtomList)) // every worker needs the per-atom observations
+			st.atomSweep(rep, st.natoms()) // every worker needs the per-atom observations
 		})
-		states = append(states, st)
+		if sc.Wide {
+			nwide++
+		}
+		states, scs = append(states, st), append(scs, sc)
 	}
 	rep.Max("max_scenario_states", int64(len(states)))
+	rep.Max("max_wide_row_states", nwide)
+	c10RowLimitDifferential(rep, states, scs)
 	idx := 0
 	ntrees := int64(0)
 	c10TwoAtomTexts(func(text string) {
@@ -1321,7 +1426,25 @@ func c10RunPredicates(r *c10Runner, rep *kit.Report, thorough bool) {
 		}
 	})
 	rep.Count("trees_2_atoms", ntrees)
-	rep.Max("max_trees_1_atom", int64(len(c10AtomList)))
+	rep.Max("max_trees_1_atom", int64(c10NBaseAtoms))
+	// two-atom trees with a wide-only atom, on the wide-row states
+	nw := int64(0)
+	c10WideExtTexts(func(text string) {
+		mine := kit.Mine(idx)
+		idx++
+		if !mine {
+			return
+		}
+		nw++
+		tr := c10NewTree(text)
+		for i, st := range states {
+			if scs[i].Wide {
+				st.guard(rep, "tree "+text, func() { st.checkTree(rep, tr, true, -1) })
+			}
+		}
+	})
+	rep.Count("trees_2_atoms_wide_only", nw)
+	rep.Max("max_trees_1_atom_wide_states", int64(len(c10AtomList)))
 	if thorough {
 		n3 := int64(0)
 		cut := false
@@ -1337,7 +1460,10 @@ func c10RunPredicates(r *c10Runner, rep *kit.Report, thorough bool) {
 			}
 			n3++
 			tr := c10NewTree(text)
-			for _, st := range states {
+			for i, st := range states {
+				if scs[i].Wide && !scs[i].Deep {
+					continue
+				}
 				st.guard(rep, "tree "+text, func() { st.checkTree(rep, tr, true, -1) })
 			}
 			return true
@@ -1348,7 +1474,7 @@ func c10RunPredicates(r *c10Runner, rep *kit.Report, thorough bool) {
 		}
 	}
 	for _, st := range states {
-		st.guard(rep, "close scenario", func() { st.x.close() })
+		st.guard(rep, "close scenario", func() { st.close() })
 	}
 }
 
